@@ -336,6 +336,95 @@ def check_parser_literals(ctx, fx, rule):
     ctx.floor(rule, n, 8, "fixed spellings compared")
 
 
+def _control_conditions(f, blocks, preds, bid, stop):
+    """branch conditions (text, edge) on the single-predecessor chain from block bid up to (not including) `stop` blocks"""
+    out = []
+    cur, guard = bid, 0
+    while guard < 60:
+        guard += 1
+        ps = [(p, w) for (p, w) in preds.get(cur, []) if p in stop]
+        if len(ps) != 1:
+            break
+        p, w = ps[0]
+        c = C.term_cond(blocks[p])
+        if c is not None and w in ("true", "false"):
+            out.append((X.show(X.strip(C.resolve_flag(c, C.single_inits(f)))), w))
+        cur = p
+    return out
+
+
+def check_opaque_space(ctx, fx, rule):
+    """T9.  Opaque path state: "If c is U+0020 SPACE: if remaining starts with '?' or '#', append %20".  ada has removed
+    the fragment and cut the view at '?' before, so the space in question is the LAST byte of the view whichever of the
+    two follows: the `%20` rewrite must depend on `view.ends_with(' ')` alone, not on whether a '?' was found."""
+    from rules import statemachine as SM
+    n = 0
+    for f, m in SM.machines(fx):
+        tag = SM.inst_tag(f)
+        if not tag.endswith("true"):
+            continue
+        region = set(m.region["OPAQUE_PATH"])
+        preds = {}
+        for b in f["blocks"]:
+            for e in b["succ"]:
+                if not e.get("pruned"):
+                    preds.setdefault(e["to"], []).append((b["id"], e.get("when")))
+        sites = [b["id"] for b in f["blocks"] if b["id"] in region and
+                 any(x.get("k") == "lit" and x.get("str") and x.get("v") == "%20" for s_ in b["stmts"] for x in X.stmt_nodes(s_))]
+        if not sites:
+            ctx.broken("%s: no \"%%20\" site in the OPAQUE_PATH case of parse_url_impl<%s>" % (rule, tag))
+        for bid in sites:
+            conds = _control_conditions(f, m.blocks, preds, bid, region)
+            n += 1
+            other = [(t, w) for (t, w) in conds if "ends_with" not in t and "back()" not in t]
+            has = any(("ends_with(' ')" in t or "back() == ' '" in t) and w == "true" for (t, w) in conds)
+            ctx.check(rule, "parse_url_impl<%s>: the %%20 rewrite depends on the trailing space alone" % tag, has and not other,
+                      "; ".join("%s [%s]" % c for c in conds),
+                      "inside the opaque path state the \"%%20\" rewrite is reached under %s: it must apply whenever the view ends in a "
+                      "space (the space is then followed by '?' or by the '#' that was cut off earlier), not only under a further "
+                      "condition" % ("; ".join("`%s` %s" % c for c in conds) or "no condition"),
+                      where=m.blocks[bid]["stmts"][0].get("loc", f["loc"]).replace("/repo/", "") if m.blocks[bid]["stmts"] else f["loc"])
+    ctx.floor(rule, n, 2, "%20 sites in the opaque path state")
+
+
+def check_host_setter_port(ctx, fx, rule):
+    """A5.  Host state with a state override: at ':' the parser sets the host and continues in port state; an EMPTY
+    port buffer leaves the port unchanged ("example.com:" keeps the old port).  ada re-uses set_port(), whose empty-value
+    arm CLEARS the port, so the call must stay behind a test that the port text is not empty."""
+    n = 0
+    for cls in ("ada::url", "ada::url_aggregator"):
+        for f in fx.fns("%s::set_host_or_hostname" % cls):
+            if not f.get("blocks"):
+                continue
+            inits = C.single_inits(f)
+            blocks = {b["id"]: b for b in f["blocks"]}
+            preds = {}
+            for b in f["blocks"]:
+                for e in b["succ"]:
+                    if not e.get("pruned"):
+                        preds.setdefault(e["to"], []).append((b["id"], e.get("when")))
+            for b in f["blocks"]:
+                for s_ in b["stmts"]:
+                    for nd in X.stmt_nodes(s_, local=True):
+                        if not (nd.get("k") == "call" and nd.get("name") == "set_port" and nd.get("args")):
+                            continue
+                        n += 1
+                        arg = X.strip(nd["args"][0])
+                        while isinstance(arg, dict) and arg.get("k") == "construct" and len(arg.get("args", [])) == 1:
+                            arg = X.strip(arg["args"][0])
+                        aname = arg.get("name") if isinstance(arg, dict) and arg.get("k") == "ref" else None
+                        conds = _control_conditions(f, blocks, preds, b["id"], set(blocks))
+                        ok = aname is not None and any(
+                            (("%s.empty()" % aname) in t and ((t.startswith("!") and w == "true") or (not t.startswith("!") and w == "false")))
+                            or (("%s.size()" % aname) in t and (">" in t or "!= 0" in t) and w == "true") for (t, w) in conds)
+                        ctx.check(rule, "%s: set_port(%s) only for a non-empty port text" % (f["key"].split("(")[0], X.show(nd["args"][0])[:30]), ok,
+                                  "behind !%s.empty()" % aname,
+                                  "%s calls set_port(%s) without a dominating test that this text is not empty: set_port(\"\") clears the "
+                                  "port, but the Standard's host setter leaves the port unchanged for a value like \"example.com:\""
+                                  % (f["key"], X.show(nd["args"][0])[:40]), where=(s_.get("loc") or f["loc"]).replace("/repo/", ""))
+    ctx.floor(rule, n, 2, "set_port calls inside the host setters")
+
+
 # "If the given value is the empty string, then set this's URL's port/query/fragment to null" -- what the empty-value arm
 # of the three setters must do before it returns (tokens of the two storage representations)
 EMPTY_CLEARS = {
